@@ -55,8 +55,14 @@ class Runner:
         else:
             self.db = backends.SaDb(self.groups)
 
-    def styles(self):
-        return ["orm", "legacy", "core"] if self.backend == "sqlalchemy" else [None]
+    def styles(self, label):
+        if self.backend != "sqlalchemy":
+            return [None]
+        self.count = getattr(self, "count", 0) + 1
+        # all three entry styles on every simulated filter and every 4th enumerated one; the ORM select() style always
+        if label.endswith("-sim") or label == "replay" or self.count % 4 == 0:
+            return ["orm", "legacy", "core"]
+        return ["orm"]
 
     def check(self, r, label):
         ctx = self.ctx
@@ -64,10 +70,13 @@ class Runner:
         grp, index = self.db.ensure(cols)
         want = backends.expected_ids(index, r["sat"])
         feats = features(r["tree"])
-        texts = [("min", U(r["min"])), ("full", U(r["full"]))]
+        texts = [("min", U(r["min"]))]
+        if self.backend == "sqlite" or label.endswith("-sim") or label == "replay":
+            texts.append(("full", U(r["full"])))
         results = {}
+        styles = self.styles(label)
         for mode, s in texts:
-            for style in self.styles():
+            for style in styles:
                 ctx.traces += 1
                 try:
                     if style is None:
@@ -81,8 +90,9 @@ class Runner:
                 results[(mode, style)] = got
                 if got != want:
                     dev = None
-                    if r.get("satdev") and got == backends.expected_ids(index, r["satdev"][0]):
-                        dev = "like_dynamic_meta"
+                    for dname, dsat in r.get("satdev") or []:
+                        if got == backends.expected_ids(index, dsat):
+                            dev = dname
                     extra = sorted(set(got) - set(want))
                     missing = sorted(set(want) - set(got))
                     ctx.violation({"what": "wrong-rows", "backend": self.backend, "style": style, "features": feats, "deviation": dev},
@@ -118,7 +128,11 @@ def run(ctx, backend):
                        "divisors are non-zero literals; substring indexes are non-negative literals"]
     runner = Runner(ctx, backend)
     seen = set()
-    for plan in PLANS[ctx.tier]:
+    plans = PLANS[ctx.tier]
+    if ctx.tier == "quick" and backend != "sqlite":
+        # the ORM round trip costs ~2 ms per query: smaller exhaustive bound, same simulated depth
+        plans = [("logic", 1), ("arith", 1), ("strings", 1), ("misc", 1), ("logic", 7, 700), ("arith", 5, 150), ("strings", 4, 150)]
+    for plan in plans:
         prof, mo = plan[0], plan[1]
         consts = {"MaxOps": mo, "Profile": '"%s"' % prof, "Backend": '"%s"' % backend}
         if len(plan) == 3:
